@@ -317,6 +317,30 @@ type powCfg struct {
 	Heights  int    `json:"heights"`
 }
 
+// legacy: the original xuperchain mode (defaultTarget <= 256, pow.go:89): bits = number of
+// leading zero bits, a hash h satisfies bits iff h <= 2^(256-bits); retarget
+// bits' = bitlen(2^bits * expected / actual) - 1, capped at maxTarget (the hardest allowed).
+func (c powCfg) legacy() bool { return c.Default <= 256 }
+
+// target of `bits` in the mode of c (-1: no hash satisfies it).
+func (c powCfg) target(bits uint32) *big.Int {
+	if c.legacy() {
+		if bits > 256 {
+			return bigNeg1 // never offered: uint(256-bits) wraps in IsProofed
+		}
+		return new(big.Int).Lsh(big.NewInt(1), uint(256-bits))
+	}
+	return refTarget(bits)
+}
+
+func (c powCfg) overflows(bits uint32) bool {
+	if c.legacy() {
+		return false
+	}
+	_, _, ovf := refDecode(bits)
+	return ovf
+}
+
 // block spacings as quarters of the expected period: 1/4, 1/2, 1, 2, 8 times
 var spacingQuarters = []int64{1, 2, 4, 8, 32}
 
@@ -362,6 +386,16 @@ func powRef(chain []*lpb.InternalBlock, n, claimed int, c powCfg, back int) uint
 	}
 	if actual > expected*4 {
 		actual = expected * 4
+	}
+	if c.legacy() {
+		d := new(big.Int).Lsh(big.NewInt(1), uint(base.TargetBits))
+		d.Mul(d, big.NewInt(expected))
+		d.Div(d, big.NewInt(actual))
+		nb := uint32(d.BitLen() - 1)
+		if nb > c.Max {
+			nb = c.Max
+		}
+		return nb
 	}
 	v, _, _ := refDecode(uint32(base.TargetBits))
 	v.Mul(v, big.NewInt(actual))
@@ -442,12 +476,12 @@ func powChainUnit(c powCfg, only *powPoint) *outcome {
 		}
 		// PRESCRIBED bits: what the implementation's own miner side yields on this chain
 		pre := own.TargetBits
-		tP := refTarget(pre)
-		if _, _, ovf := refDecode(pre); ovf {
+		tP := c.target(pre)
+		if c.overflows(pre) {
 			tP = bigNeg1
 		}
-		tL := refTarget(lag)
-		tBtc := refTarget(btc)
+		tL := c.target(lag)
+		tBtc := c.target(btc)
 		if pre != btc {
 			o.counts["lags_bitcoin_rule_by_one_block"]++
 			if pre != lag {
@@ -466,9 +500,14 @@ func powChainUnit(c powCfg, only *powPoint) *outcome {
 				v    uint32
 				name string
 			}
-			easier, harder := new(big.Int).Mul(refTarget(pre), big.NewInt(2)), new(big.Int).Div(refTarget(pre), big.NewInt(2))
+			easier, harder := new(big.Int).Mul(c.target(pre), big.NewInt(2)), new(big.Int).Div(c.target(pre), big.NewInt(2))
 			opts := []bitsOpt{{pre, "miner"}, {lag, "retarget_formula"}, {btc, "bitcoin_rule"}, {c.Default, "default"}, {c.Max, "max"}}
-			if easier.Sign() > 0 {
+			if c.legacy() {
+				if pre > 0 {
+					opts = append(opts, bitsOpt{pre - 1, "twice_easier"})
+				}
+				opts = append(opts, bitsOpt{pre + 1, "twice_harder"}, bitsOpt{0, "zero_bits"})
+			} else if easier.Sign() > 0 {
 				opts = append(opts, bitsOpt{refEncode(easier), "twice_easier"}, bitsOpt{refEncode(harder), "twice_harder"})
 			}
 			seenBits := map[uint32]bool{}
@@ -480,8 +519,8 @@ func powChainUnit(c powCfg, only *powPoint) *outcome {
 				if only != nil && only.Cand.Bits != bo.v {
 					continue
 				}
-				tB := refTarget(bo.v)
-				if _, _, ovf := refDecode(bo.v); ovf {
+				tB := c.target(bo.v)
+				if c.overflows(bo.v) {
 					tB = bigNeg1 // an encoding above 2^256 is no valid target
 				}
 				lowT := tB
@@ -573,7 +612,7 @@ func powChainUnit(c powCfg, only *powPoint) *outcome {
 									} else {
 										o.counts["chain.rejected"]++
 									}
-									o.distinct[fmt.Sprintf("pow.chain|%s|%s|%s|%s|claim_true:%v|%s", bo.name, hk, tk, sk, claimed == int64(n), res)] = true
+									o.distinct[fmt.Sprintf("pow.chain%s|%s|%s|%s|%s|claim_true:%v|%s", modeTag(c), bo.name, hk, tk, sk, claimed == int64(n), res)] = true
 									if !got {
 										if bo.v == btc && bo.v != pre && hk == "within" && tk != "before" && sk == "valid" && claimed == int64(n) {
 											o.counts["chain.bitcoin_rule_block_refused"]++
@@ -624,7 +663,7 @@ func powChainUnit(c powCfg, only *powPoint) *outcome {
 		// ---- extend the chain with the block the implementation's own miner produces
 		nb := &lpb.InternalBlock{Version: 1, Height: int64(n), PreHash: parent.Blockid, Timestamp: parent.Timestamp + spacing, TargetBits: int32(own.TargetBits),
 			Proposer: []byte(miner.Address), Pubkey: []byte(miner.PubJSON), InTrunk: true}
-		tOwn := refTarget(own.TargetBits)
+		tOwn := c.target(own.TargetBits)
 		if !mine(nb, bigNeg1, tOwn, mineTries) {
 			o.counts["chain.stopped_target_unreachable"]++
 			break
@@ -642,11 +681,21 @@ func powChainUnit(c powCfg, only *powPoint) *outcome {
 	}
 	if only == nil {
 		o.counts["chain.chains"]++
+		if c.legacy() {
+			o.counts["chain.chains_legacy_mode"]++
+		}
 		if c.Gap == 2 && len(c.Pattern) == 2 && c.Pattern[0] == 0 && c.Pattern[1] == 2 {
 			o.sample = map[string]interface{}{"part": "pow.chain", "cfg": c, "height:miner_bits/retarget_formula_bits/bitcoin_rule_bits": trace}
 		}
 	}
 	return o
+}
+
+func modeTag(c powCfg) string {
+	if c.legacy() {
+		return ".legacy"
+	}
+	return ""
 }
 
 func powChains(tier core.Tier) []powCfg {
@@ -674,6 +723,29 @@ func powChains(tier core.Tier) []powCfg {
 			}
 		}
 	}
+	// the legacy leading-zero-bits mode: start at 3 / 5 zero bits, cap at 6 / 9 (the cap is reached by
+	// two fast windows from 3 and from 5; slow windows go down to 0 bits from 3)
+	legacy := [][2]uint32{{3, 6}}
+	if tier == core.Thorough {
+		legacy = [][2]uint32{{3, 6}, {5, 9}, {1, 256}}
+	}
+	for _, gap := range []int32{2, 3, 4} {
+		for _, dm := range legacy {
+			n := 1
+			for i := 0; i < plen; i++ {
+				n *= len(spacingQuarters)
+			}
+			for k := 0; k < n; k++ {
+				pat := make([]int, plen)
+				x := k
+				for i := plen - 1; i >= 0; i-- {
+					pat[i] = x % len(spacingQuarters)
+					x /= len(spacingQuarters)
+				}
+				out = append(out, powCfg{Gap: gap, Expected: 16, Default: dm[0], Max: dm[1], Pattern: pat, Heights: (plen+1)*int(gap) + 2})
+			}
+		}
+	}
 	return out
 }
 
@@ -693,7 +765,7 @@ func runPowChains(rep *core.Report, tier core.Tier, distinct map[string]bool) in
 			n += o.counts["chain.acceptance_calls"]
 		}
 	}
-	rep.Set("pow.chain.box", fmt.Sprintf("%d stub chains (adjust gap 2..4 x %d-window spacing patterns over {1/4,1/2,1,2,8} x expected x max target), each grown block by block with the implementation's own miner bits; "+
+	rep.Set("pow.chain.box", fmt.Sprintf("%d stub chains (adjust gap 2..4 x %d-window spacing patterns over {1/4,1/2,1,2,8} x expected x {Bitcoin-style compact targets with two floors; legacy leading-zero-bits mode with (default, cap) bits (3,6) [thorough also (5,9), (1,256)]}), each grown block by block with the implementation's own miner bits; "+
 		"at every height candidates = bits {miner-side (prescribed), retarget formula, Bitcoin rule, default, max, twice easier, twice harder} x hash {within, between prescribed and declared target, above} x timestamp {after, equal, 1 ns before parent} x signature {valid, other id, other key, foreign public key} x claimed height {true, 1}", len(cfgs), len(cfgs[0].Pattern)))
 	return n
 }
